@@ -444,6 +444,25 @@ static long __attribute__((noinline)) deepcopy_run(long rounds) {
   return bad;
 }
 
+/* copy() of objects of a plain type (no Assign, no Copy instance) - managed, root, raw and stack originals: each copy is a
+   registered managed object of its own */
+struct Pl { int64_t a, b; };
+var Pl = Cello(Pl);
+static long __attribute__((noinline)) copyplain_run(void) {
+  long bad = 0; var gc = current(GC);
+  struct Pl* m = alloc(Pl); m->a = 1; struct Pl* r = alloc_root(Pl); r->a = 2; struct Pl* w = alloc_raw(Pl); w->a = 3; var s = $(Pl, 4, 4);
+  var srcs[4] = { m, r, w, s };
+  for (int i = 0; i < 4; i++) {
+    struct Pl* c = copy(srcs[i]);
+    if (!mem(gc, c) || type_of(c) != Pl || c->a != i + 1) bad++;
+    del(c);
+    if (mem(gc, c)) bad++;
+  }
+  if (!mem(gc, m) || !mem(gc, r) || mem(gc, w) || mem(gc, s)) bad++;
+  dealloc_raw(w); del_root(r);
+  return bad;
+}
+
 static void __attribute__((noinline)) plain_nodes_build(long base, long n) { for (long i = 0; i < n; i++) { var nd = new(Node, $I(base + i)); (void)nd; } }
 
 /* a heap Tuple one of whose items is NULL (set, push and the constructor accept it): the collector meets it while marking */
@@ -739,6 +758,11 @@ static int __attribute__((noinline)) real_main(int argc, char** argv) {
     } else if (hc_is(0, "deepcopy")) {         /* deepcopy <rounds> : copy() of an object whose Assign allocates, across threshold collections */
       volatile long bad = 0; bulkn = 0;
       HC_TRY(bad = deepcopy_run((long)hc_int(1)));
+      ev_begin("bulk"); ev_int("n", 1); ev_int("rooted", 1); ev_int("lost", bad); ev_int("twice", 0); ev_int("stale", 0); ev_int("gone", 0);
+      ev_str("exc", hc_exc); ev_int("line", cur_line); ev_end();
+    } else if (hc_is(0, "copyplain")) {
+      volatile long bad = 0; bulkn = 0;
+      HC_TRY(bad = copyplain_run());
       ev_begin("bulk"); ev_int("n", 1); ev_int("rooted", 1); ev_int("lost", bad); ev_int("twice", 0); ev_int("stale", 0); ev_int("gone", 0);
       ev_str("exc", hc_exc); ev_int("line", cur_line); ev_end();
     } else if (hc_is(0, "finalloc")) {         /* finalloc <n> <k> : n garbage Nodes whose finalisers allocate k objects each, in the middle of a sweep */
